@@ -35,7 +35,7 @@ func (c13) Batches(tier string, seed uint64) []core.Batch {
 func (c13) Mandatory(tier string) []string {
 	return []string{"members:0", "members:1", "members:2-4", "members:5+", "size:0", "size:odd", "last-odd:padded", "last-odd:unpadded", "name:16-bytes", "name:slash-terminated",
 		"blank-numeric-fields", "member-after-odd", "data:magic-inside", "delivery:bytes.Reader", "delivery:os.File", "delivery:exact-EOF-ReaderAt",
-		"read:immediately", "read:after-advance", "read:reseek", "read:ReadAt"}
+		"read:immediately", "read:after-advance", "read:continued-after-advance", "read:reseek", "read:ReadAt"}
 }
 
 type c13Case struct {
@@ -125,6 +125,7 @@ func (p c13) run(c *core.C, t *core.T, cs c13Case) {
 	r := core.NewRand(cs.Seed, "c13")
 	var entries []*deb.ArEntry
 	readNow := map[int]bool{}
+	partial := map[int]int{}
 	checkData := func(i int, e *deb.ArEntry, when string) {
 		want := cs.Members[i].Data
 		if _, err := e.Data.Seek(0, 0); err != nil {
@@ -149,7 +150,15 @@ func (p c13) run(c *core.C, t *core.T, cs c13Case) {
 			return
 		}
 		entries = append(entries, e)
-		if i < len(cs.Members) && r.Bool() {
+		if i < len(cs.Members) && len(cs.Members[i].Data) >= 2 && r.Chance(1, 3) {
+			// read the first half now, the rest after the iterator has advanced (no seek in between)
+			half := len(cs.Members[i].Data) / 2
+			buf := make([]byte, half)
+			if _, err := io.ReadFull(e.Data, buf); err != nil || !bytes.Equal(buf, cs.Members[i].Data[:half]) {
+				c.Failf("member %d %q: first half read immediately differs (err %v)", i, cs.Members[i].Name, err)
+			}
+			partial[i] = half
+		} else if i < len(cs.Members) && r.Bool() {
 			readNow[i] = true
 			got, err := io.ReadAll(e.Data)
 			if err != nil || !bytes.Equal(got, cs.Members[i].Data) {
@@ -185,7 +194,14 @@ func (p c13) run(c *core.C, t *core.T, cs c13Case) {
 		if e.Data.Size() != int64(len(m.Data)) {
 			c.Failf("member %d Data.Size() = %d, want %d", i, e.Data.Size(), len(m.Data))
 		}
-		if readNow[i] {
+		if half, ok := partial[i]; ok {
+			rest, err := io.ReadAll(e.Data)
+			if err != nil || !bytes.Equal(rest, m.Data[half:]) {
+				c.Failf("member %d %q: after the iterator advanced, continuing a half-finished read delivers %d bytes (err %v) that differ from the member's remaining %d bytes", i, m.Name, len(rest), err, len(m.Data)-half)
+			}
+			c.Cover("read:continued-after-advance")
+			checkData(i, e, "reseek")
+		} else if readNow[i] {
 			checkData(i, e, "reseek")
 		} else {
 			checkData(i, e, "after-advance")
